@@ -312,7 +312,8 @@ class scrypt(  # type: ignore[misc]
         if self.ident == IDENT_7:
             # this format doesn't support non-ascii salts.
             # as workaround, we take raw bytes, encoded to base64
-            salt = b64s_encode(salt)
+            # (the encoded form has to fit max_salt_size as well)
+            salt = b64s_encode(salt)[: self.max_salt_size]
         return salt
 
     # ===================================================================
